@@ -40,6 +40,33 @@ BLIND_SPOTS = ["a wrong numerical block returned by a contribution", "sign error
 SYS = "cardillo/system.py"
 
 
+def property_scan_per_instance(ctx, rule="C14.R18"):
+    """`each system-level vector and matrix equals the sum of the contributions' local quantities`: a contribution contributes to quantity p
+    iff IT offers p.  Contacts, force laws and springs bind optional quantities per instance in __init__, so two objects of one class can
+    differ.  The append of `contr` to the list of property `p` has to be guarded, in the same loop pass, by a test that reads that attribute
+    of that object (hasattr(contr, p) / callable(getattr(contr, p)))."""
+    from ..model import guards_of
+    rep = ctx.rep
+    rel = "cardillo/system.py"
+    fn = ctx.repo.get(rel, "System.assemble")
+    C = f"{rel}:System.assemble"
+    apps = [w for w in ast.walk(fn) if isinstance(w, ast.Expr) and isinstance(w.value, ast.Call) and isinstance(w.value.func, ast.Attribute) and w.value.func.attr == "append"
+            and isinstance(w.value.func.value, ast.Call) and (dotted(w.value.func.value.func) or "") == "getattr" and w.value.args and isinstance(w.value.args[0], ast.Name)]
+    if not apps:
+        rep.ok(rule, C, "no append to a per-property contribution list found (no verdict)", verdict="unknown", trivial=True)
+        return
+    for ap in apps:
+        obj = ap.value.args[0].id
+        gs = guards_of(ap, fn)
+        ok_ = any(pol and re.search(rf"(hasattr|getattr)\(\s*{obj}\s*,\s*p\b", t) for (t, pol) in gs)
+        if ok_:
+            rep.ok(rule, C, f"`{obj}` joins a property list under a test of its own attribute ({[t for t, p_ in gs if p_][-1][:60]})")
+        else:
+            rep.bad(rule, C, ap, f"`{norm_src(ap)[:80]}` is not guarded by hasattr / callable(getattr({obj}, p)) in its own loop pass: which lists `{obj}` joins is decided elsewhere (per type, "
+                    "from another instance), although optional quantities are bound per instance - a frictional contact added after a frictionless one is missing from the gamma_F list and "
+                    "its friction silently disappears from System.gamma_F / W_F", f"{rel}:{ap.lineno}")
+
+
 def add_membership_sees_same_call(ctx, rule="C14.R17"):
     """`names stay unique and the registry maps exactly the current contributions` rests on add() rejecting an object that is already listed.
     With the test and the append in ONE loop pass the test sees the earlier arguments of the same call.  A validate-all-then-append-all
@@ -183,6 +210,8 @@ def run(ctx):
     rep.rule("C14.R5", "list/callee co-definition (non-contact, non-E_pot families)", 40)
     rep.rule("C14.R6", "scatter method m calls contr.m (frozen exception table)", 60)
     rep.rule("C14.R8", "accumulation into index sets that may repeat an index (uDOF/qDOF of interactions) is unbuffered (np.add.at / COO)", 1)
+    rep.rule("C14.R18", "assemble() decides for EACH contribution, by looking at that object, which per-property lists it joins (optional quantities are bound per instance: gamma_F only with mu > 0, h or c by compliance_form): no decision cached per type or taken from another instance", 1)
+    property_scan_per_instance(ctx)
     rep.rule("C14.R17", "System.add tests 'already part of the system' in the same loop pass that appends: the test has to see what the same call has appended so far (an object listed twice in one add() must be rejected at its second occurrence)", 1)
     add_membership_sees_same_call(ctx)
     rep.rule("C14.R16", "every attribute System.assemble accumulates into (counters, index lists, connectivity) is bound in assemble itself before the accumulation", 8)
@@ -1024,4 +1053,9 @@ MUTANTS += [
 MUTANTS += [
     dict(id="c14-r17-seed", canary=True, what="[seeded by sub-agent] System.add made 'atomic': validate all arguments first, then append all (an object listed twice in one call is added twice)", file='cardillo/system.py',
          old='        for contr in contrs:\n            if not contr in self.contributions:\n                self.contributions.append(contr)\n                if not hasattr(contr, "name"):\n                    contr.name = "contr" + str(self.ncontr)\n\n                if contr.name in self.contributions_map:\n                    suffix = self.ncontr\n                    new_name = contr.name + "_contr" + str(suffix)\n                    while new_name in self.contributions_map:\n                        suffix += 1\n                        new_name = contr.name + "_contr" + str(suffix)\n                    print(\n                        f"There is another contribution named \'{contr.name}\' which is already part of the system. Changed the name to \'{new_name}\' and added it to the system."\n                    )\n                    contr.name = new_name\n                self.contributions_map[contr.name] = contr\n                self.ncontr += 1\n            else:\n                raise ValueError(f"contribution {str(contr)} already added")\n\n', new='        for contr in contrs:\n            if contr in self.contributions:\n                raise ValueError(f"contribution {str(contr)} already added")\n\n        for contr in contrs:\n            self.contributions.append(contr)\n            if not hasattr(contr, "name"):\n                contr.name = "contr" + str(self.ncontr)\n\n            if contr.name in self.contributions_map:\n                suffix = self.ncontr\n                new_name = contr.name + "_contr" + str(suffix)\n                while new_name in self.contributions_map:\n                    suffix += 1\n                    new_name = contr.name + "_contr" + str(suffix)\n                contr.name = new_name\n            self.contributions_map[contr.name] = contr\n            self.ncontr += 1\n\n', expect="C14.R17"),
+]
+
+MUTANTS += [
+    dict(id="c14-r18-seed", canary=True, what="[seeded by sub-agent] System.assemble scans the implemented properties once per contribution TYPE and reuses the result for later instances", file='cardillo/system.py',
+         edits=[('cardillo/system.py', '        for contr in self.contributions:\n            contr.t0 = self.t0\n', "        implemented = {}\n"+'        for contr in self.contributions:\n            contr.t0 = self.t0\n'), ('cardillo/system.py', '            for p in properties:\n                # if property is implemented as class function append to property contribution\n                # - p in contr.__class__.__dict__: has global class attribute p\n                # - callable(getattr(contr, p, None)): p is callable\n                if hasattr(contr, p) and callable(getattr(contr, p)):\n                    getattr(self, f"_{self.__class__.__name__}__{p}_contr").append(\n                        contr\n                    )\n\n', '            if type(contr) not in implemented:\n                implemented[type(contr)] = [\n                    p for p in properties if callable(getattr(contr, p, None))\n                ]\n            for p in implemented[type(contr)]:\n                getattr(self, f"_{self.__class__.__name__}__{p}_contr").append(contr)\n\n')], expect="C14.R18"),
 ]
